@@ -172,14 +172,14 @@ PROPS = {
         'not_decided': ['the real stat/readlink/MD5 (assumed models)', 'the symlink readlink path content'],
     },
     'C14': {
-        'units': ['stale', 'prefix', 'rmtree'],
+        'units': ['stale', 'prefix_lcp', 'prefix', 'rmtree'],
         'design_ref': 'DESIGN.md section 4, C14',
         'claim': 'StaleFileRemovalCommand::execute (proved, lists of at most 4 stale files / 3 roots as separate objects, loops closed by invariants): only elements of '
                  'filesToDelete are ever passed to remove(); the k-th stale file is removed iff no roots are configured or it is absolute and '
                  'pathIsPrefixedByPath(file, root) holds for some configured root; nothing is removed without a prior stale-file-removal result; the '
                  'result recorded is always built from the CURRENT expected-output list.  pathIsPrefixedByPath agrees with the component-wise prefix '
-                 'specification of the property statement (one trailing separator of the root ignored) -- BOUNDED: all pairs of strings of length <= 6; _remove_all_r (the recursive walk behind remove): success for a directory means every entry the iterator yielded, whatever its name, was removed through a recursive call and then the directory itself, links are not followed, the first error is returned (induction on the depth: recursive calls are assumed to meet the same contract; at most 3 entries named)',
-        'not_decided': ['std::set / std::set_difference themselves (computeFilesToDelete is proved to hand them the prior list and the current list as duplicate-free sorted sets, output into filesToDelete)', 'pathIsPrefixedByPath on strings longer than the bound',
+                 'specification of the property statement (one trailing separator of the root ignored) for strings of any length up to 4096 bytes over all byte values (prefix_lcp, proved: the function is loop-free, std::mismatch / substr+operator== / find carry assumed contracts over the ghost longest-common-prefix length); the same real function against concrete library loops -- BOUNDED, not counted: all pairs of strings of length <= 6; _remove_all_r (the recursive walk behind remove): success for a directory means every entry the iterator yielded, whatever its name, was removed through a recursive call and then the directory itself, links are not followed, the first error is returned (induction on the depth: recursive calls are assumed to meet the same contract; at most 3 entries named)',
+        'not_decided': ['std::set / std::set_difference themselves (computeFilesToDelete is proved to hand them the prior list and the current list as duplicate-free sorted sets, output into filesToDelete)', 'std::mismatch, std::string::substr / operator== / find (assumed contracts in models/prefix_lcp.h; cross-checked by the bounded unit prefix on strings <= 6 bytes)',
                         'recursive directory removal (FileSystem::remove)'],
     },
     'C15': {
